@@ -20,7 +20,7 @@ Import ListNotations.
 From BB Require Import BN Brute SpaceFacts TrapFacts PercolateFacts AttractorFacts Diagram Invariants Checks Filter
   Strict PetriNet Control Meta FilterFacts PetriNetFacts TrappistFacts DiagramStruct DiagramSem1 DiagramCache
   DiagramDepth DiagramComplete Termination ControlFacts MetaFacts Candidates StrictFacts MinExpandFacts CandidatesFacts SymbolicTest SymbolicTestFacts Signed ReductionFacts ControlFacts2 Main Blocks BlocksFacts ObsFacts OwnerFacts CandidatesTerm
-  PartialOwner BlockMath BlockComplete ASeeds ASeedsFacts LogChecks SkipRule SkipRuleFacts Names NamesFacts Perm PermFacts SCC SCCFacts SCCStruct ControlFacts3 SCCTerm FilterSym Main2 StrategyFacts ControlFacts4 PyLib PySrc PySrcFacts SkipRuleFacts2 SCCComplete SCCAttr.
+  PartialOwner BlockMath BlockComplete ASeeds ASeedsFacts LogChecks SkipRule SkipRuleFacts Names NamesFacts Perm PermFacts SCC SCCFacts SCCStruct ControlFacts3 SCCTerm FilterSym Main2 StrategyFacts ControlFacts4 PyLib PySrc PySrcFacts SkipRuleFacts2 SCCComplete SCCAttr BlockComplete2.
 
 (* given covering candidates, the filter returns exactly one seed per attractor of the node, and the sets are the attractors *)
 Theorem C01_filter_exact : forall (N : net) (S : space) (motifs : list space) (cands seeds : list state) (sets : list (list state)), trap_space N S -> (forall M : space, In M motifs -> trap_space N M /\ subspace M S = true) -> NoDup cands -> (forall c : state, In c cands -> in_space c S = true) -> covers N S motifs cands -> compute_attractors_filter N false motifs cands = (seeds, Some sets) -> one_to_one N S motifs seeds /\ length sets = length seeds /\ (forall (i : nat) (s : state) (X : list state), nth_error seeds i = Some s -> nth_error sets i = Some X -> forall t : state, In t X <-> reach N s t).
@@ -150,6 +150,10 @@ Proof. exact expand_scc_AttrServed. Qed.
 Theorem C01_scc_strategy_every_attractor_reported : forall (fuel : nat) (N : net) (cfg : config) (d' : sd) (tape : tape_t) (seeds : nat -> list state), 1 <= max_motifs cfg -> expand_scc fuel N cfg (init N) false tape = (d', RBool true) -> exp_seeds_ok N d' seeds -> forall A : state -> Prop, attractor N A -> exists (i : nat) (s : state), i < size d' /\ n_exp (get d' i) = true /\ In s (seeds i) /\ A s.
 Proof. exact expand_scc_every_attractor_reported. Qed.
 
+(* after the D18 fix: block expansion started on any diagram reached by plain operations *)
+Theorem C01_block_expansion_one_to_one_from_any_plain_diagram : forall (fuel : nat) (N : net) (cfg : config) (d d' : sd) (opt : bool) (sz : option nat) (tape : list bool) (seeds : nat -> list state), 1 <= max_motifs cfg -> PlainInv N d -> expand_block fuel N cfg d true opt sz tape = (d', RBool true) -> clean_log_ok N (fst (expand_block_log fuel N cfg d true opt sz tape)) -> exp_seeds_ok N d' seeds -> (forall A : state -> Prop, attractor N A -> exists (i : nat) (s : state), i < size d' /\ n_exp (get d' i) = true /\ In s (seeds i) /\ A s) /\ (forall (A : state -> Prop) (i j : nat) (s t : state), attractor N A -> i < size d' -> j < size d' -> n_exp (get d' i) = true -> n_exp (get d' j) = true -> In s (seeds i) -> In t (seeds j) -> A s -> A t -> i = j /\ s = t).
+Proof. exact expand_block_one_to_one_from. Qed.
+
 (* non-vacuity: two bistable switches; x0'=x1, x1'=x0, x2'=x3, x3'=x2 *)
 Definition ex_sw : net := [fun s => nth 1 s false; fun s => nth 0 s false; fun s => nth 3 s false; fun s => nth 2 s false].
 Definition ex_cfg : config := {| max_motifs := 1000 |}.
@@ -203,3 +207,4 @@ Print Assumptions C01_filter_with_symbolic_test_exact.
 Print Assumptions C01_node_seeds_exact.
 Print Assumptions C01_scc_strategy_loses_nothing.
 Print Assumptions C01_scc_strategy_every_attractor_reported.
+Print Assumptions C01_block_expansion_one_to_one_from_any_plain_diagram.
